@@ -3,7 +3,6 @@ package c08
 import (
 	"bytes"
 	"fmt"
-	"reflect"
 
 	"github.com/Eyevinn/mp4ff/bits"
 	"github.com/Eyevinn/mp4ff/mp4"
@@ -240,7 +239,7 @@ func (s *state) checkEncodes(fm, fl *mp4.File, frag bool) {
 				}
 				for fi := range a.Fragments {
 					s.evals++
-					if !reflect.DeepEqual(a.Fragments[fi].Moof, z.Fragments[fi].Moof) {
+					if !sameTree(a.Fragments[fi].Moof, z.Fragments[fi].Moof) {
 						c.Violation("tree/after-encode-"+em.name+"/moof-differs", fmt.Sprintf("%s: after File.Encode+EncodeSW (%s mode) the moof of segment %d fragment %d differs between the modes%s", s.name, em.name, si, fi, trunOffsets(a.Fragments[fi].Moof, z.Fragments[fi].Moof)), s.detail(nil))
 					}
 				}
